@@ -185,7 +185,9 @@ LayerJson(L) ==
 EvalSkip(seed) ==
   LET X == InputOf(net, seed) G == UpstreamOf(net, seed) IN
   [seed |-> seed, x |-> X, g |-> G,
-   predict |-> [a \in Accs |-> [acc |-> a, y |-> Predict([net EXCEPT !.skipacc = a], X)]],
+   \* (multiplicative accumulation only with a single connection: products of several leave the exact range)
+   predict |-> [a \in {b \in Accs : b # "multiply" \/ Cardinality(net.connect) <= 1} |->
+                  [acc |-> a, y |-> Predict([net EXCEPT !.skipacc = a], X)]],
    kinkfree |-> KinkFree([net EXCEPT !.skipacc = "add"], X),
    grads |-> IF KinkFree([net EXCEPT !.skipacc = "add"], X) THEN Backward([net EXCEPT !.skipacc = "add"], X, G).grads ELSE <<>>]
 EvalLoop(seed) ==
